@@ -25,7 +25,7 @@ class C19(Prop):
 
     def harness(self, ctx):
         n = 60 if ctx.thorough else 12
-        return A.run(ctx, n, 45, with_timeout=True, bigp=0.2 if ctx.thorough else 0.12)
+        return A.run(ctx, n, 45, with_timeout=True, bigp=0.2 if ctx.thorough else 0.12, with_late=True)
 
     def oracle(self, ctx, obs):
         res = []
@@ -34,6 +34,7 @@ class C19(Prop):
             # "posted under that ID by the authorised agent": what an agent without (or no longer with) the backend posts or fetches is refused
             res += [v for v in A.oracle_c17(h) if v[0].startswith("unauthorised-agent-call-accepted") or v[0].startswith("unauthorised-agent-call-wrote")]
         res += A.oracle_timeout(obs.get("timeout"))
+        res += A.oracle_late(obs.get("late"))
         res += A.oracle_conc(obs.get("conc"))
         return res
 
